@@ -31,7 +31,8 @@ var Kinds = []string{
 	"reroot", "outgroup", "midpoint", "unroot", "prune", "collapse_len", "collapse_sup", "collapse_depth",
 	"resolve", "rotate", "sort", "rotate_node", "graft", "merge", "identical", "identical_one", "single_nodes",
 	"nni", "nni_undo", "nni_double", "rename", "rename_auto", "rename_regexp", "shuffle_tips", "clone", "subtree",
-	"reinit", "clear_lengths", "clear_supports",
+	"reinit", "clear_lengths", "clear_supports", "comments_set", "comments_clear", "comments_add",
+	"scale_lengths", "round_supports",
 }
 
 // GenOp draws one operation. Arguments are drawn generously; the interpreter reduces the
@@ -50,7 +51,7 @@ func GenOp(t *rapid.T, kinds []string) Op {
 		}
 	}
 	switch k {
-	case "reroot", "rotate_node", "subtree", "nni", "nni_undo", "nni_double":
+	case "reroot", "rotate_node", "subtree", "nni", "nni_undo", "nni_double", "comments_add":
 		sel(1)
 	case "outgroup":
 		sel(rapid.IntRange(1, 5).Draw(t, "nout"))
@@ -408,6 +409,27 @@ func Apply(s *State, op Op) (int, error) {
 		t.ClearLengths(b(0), b(1))
 	case "clear_supports":
 		t.ClearSupports()
+	case "comments_set":
+		// what the annotating commands do (acr, asr): replace the comments of every node
+		for i, n := range t.Nodes() {
+			n.ClearComments()
+			n.AddComment("c" + strconv.Itoa(i))
+		}
+	case "comments_clear":
+		t.ClearComments()
+	case "comments_add":
+		nodes := t.Nodes()
+		nodes[sel(0)%len(nodes)].AddComment("z" + strconv.Itoa(sel(0)))
+		// Newick text can show one comment per branch, and only after a length
+		if edges := t.Edges(); len(edges) > 0 {
+			if e := edges[sel(0)%len(edges)]; len(e.Comments()) == 0 && e.Length() != tree.NIL_LENGTH {
+				e.AddComment("e" + strconv.Itoa(sel(0)))
+			}
+		}
+	case "scale_lengths":
+		t.ScaleLengths(2, true, true)
+	case "round_supports":
+		t.RoundSupports(1)
 	default:
 		return Skipped, fmt.Errorf("unknown op %q", op.Kind)
 	}
